@@ -418,7 +418,10 @@ class Gen:
             # (free & x) | (free & y)
             return copy.deepcopy(r.choice(subs))
         op = r.choice(ops)
-        if op in ("or", "and", "sub"):
+        if op == "sub":
+            return {"op": op, "l": self.tree(depth - 1, ops, leaf_mode, rich),
+                    "r": self.with_empty_event(self.tree(depth - 1, ops, leaf_mode, rich))}
+        if op in ("or", "and"):
             return {"op": op, "l": self.tree(depth - 1, ops, leaf_mode, rich),
                     "r": self.tree(depth - 1, ops, leaf_mode, rich)}
         if op in ("inv", "flatten"):
@@ -437,6 +440,28 @@ class Gen:
             return {"op": "mw", "s": self.tree(depth - 1, ops, leaf_mode, rich),
                     "gap": r.choice([0, 1, 2, 5])}
         raise ValueError(op)
+
+    def with_empty_event(self, t, p=0.12):
+        """A subtractor may hold a zero-length interval (start == end): it covers no instant and must
+        not change the difference."""
+        if self.rng.random() < p:
+            # (not below a buffer: extended by it a zero-length event covers time, while the reference
+            #  semantics of the oracles is defined on positive-length events)
+            def plain_leaves(x, under_buf=False):
+                if x["op"] == "stored":
+                    if not under_buf:
+                        yield x
+                else:
+                    for k in ("l", "r", "s"):
+                        if k in x:
+                            yield from plain_leaves(x[k], under_buf or x["op"] in ("buf", "mw"))
+            lvs = list(plain_leaves(t))
+            if lvs:
+                lf = self.rng.choice(lvs)
+                x = self.rng.randrange(0, self.m + 1)
+                rich = not any(e[2] is None for e in lf["evs"])      # (an empty leaf may sit under a field filter)
+                lf["evs"].insert(self.rng.randrange(len(lf["evs"]) + 1), [x, x, self.fresh() if rich else None])
+        return t
 
     def window(self):
         r = self.rng
